@@ -283,6 +283,46 @@ func c05(c *Ctx) {
 				return q.bypass() == nil
 			}(), r, fmt.Sprintf("%s:expectedTx-mismatch-conflicts#%d", fnName(check), n), c.pos(ifi.Cond.Pos()), "mismatch returns an error", "an expectedTx mismatch does not fail validation")
 		})
+		// every answer of a validation read is compared with the recorded one before validation moves on: a found
+		// answer with the recorded tx (expectedTx == valRef.Tx()), a not-found answer with "was recorded as not found"
+		// (expectedTx > 0 conflicts). A comparison that is skipped for some records lets phantoms through.
+		cmpTx := func(a string) bool {
+			return strings.Contains(a, "expectedTx") && strings.Contains(a, "ValueRef).Tx") && strings.Contains(a, " == ")
+		}
+		cmpPos := func(a string) bool { return strings.HasPrefix(a, "(const:0 < ") && strings.Contains(a, "expectedTx") }
+		notFound := whenCond(true, func(a string) bool { return strings.Contains(a, "errors.Is") && strings.Contains(a, "ErrKeyNotFound") })
+		for _, vn := range []string{snapT + "GetWithFilters", snapT + "GetWithPrefixAndFilters"} {
+			for i, v := range sites(check, callTo(vn)) {
+				v := v
+				next := func(x ssa.Instruction) bool {
+					if x == v {
+						return true
+					}
+					rt, ok := x.(*ssa.Return)
+					return ok && retKind(rt) != "fail"
+				}
+				q := &pathQ{fn: check, from: []ssa.Instruction{v}, to: next, barrier: anyEdge(notFound, whenCond(true, cmpTx), whenCond(false, cmpTx))}
+				w := q.bypass()
+				c.check(w == nil, r, fmt.Sprintf("%s:found-answer-compared:%s#%d", fnName(check), lastSeg(vn), i), c.pos(v.Pos()), "a found answer always reaches the expectedTx == valRef.Tx() comparison",
+					"validation can move on after a successful lookup without comparing it with the recorded tx (a key created under a prefix recorded as empty is not detected): "+c.witnessStr(w))
+				var nf []cfgEdge
+				for _, b := range check.Blocks {
+					for si := range b.Succs {
+						if notFound(b, si) && instrDominatesBlock(v, b) {
+							nf = append(nf, cfgEdge{b, si})
+						}
+					}
+				}
+				if len(nf) == 0 {
+					c.undecided(r, fmt.Sprintf("%s:notfound-answer-compared:%s#%d", fnName(check), lastSeg(vn), i), "no ErrKeyNotFound edge after the validation read")
+					continue
+				}
+				q2 := &pathQ{fn: check, fromEdges: nf[:1], to: next, barrier: anyEdge(whenCond(true, cmpPos), whenCond(false, cmpPos))}
+				w2 := q2.bypass()
+				c.check(w2 == nil, r, fmt.Sprintf("%s:notfound-answer-compared:%s#%d", fnName(check), lastSeg(vn), i), c.pos(v.Pos()), "a not-found answer is compared with the recorded expectedTx",
+					"a key that disappeared is not compared with the recorded version: "+c.witnessStr(w2))
+			}
+		}
 		if n < 3 {
 			c.undecided(r, fnName(check)+":expectedTx-comparisons", fmt.Sprintf("expected >=3 expectedTx comparisons, found %d", n))
 		}
